@@ -79,7 +79,7 @@ def lockset_worker(item):
             out['state_mutex'] = repr(Ptr(state.obj, (ir.field_index(RS, 'Mutex'),)))
             for fname in FIELDS: H.ex.watch_fields[(state.obj, (ir.field_index(RS, fname),))] = '*state.' + fname
         if kind == 'route':
-            H, st, state, w, r, path = sweep.mkrun(ir, rt, budget_s=600, extra=extra, max_paths=200000 if rt['path'] == '/api/v0/login' else 30000, loop_bound=3)
+            H, st, state, w, r, path = sweep.mkrun(ir, rt, budget_s=600, extra=extra, max_paths=200000 if rt['path'] == '/api/v0/login' else 30000, loop_bound=5)
             arm(H, state)
             fn = ir.funcs[rt['handler']]; np_ = len(fn['params'] or [])
             paths = H.run(rt['handler'], st, [state, w, r] if np_ == 3 else [w, r]) if np_ in (2, 3) else None
@@ -263,6 +263,12 @@ def lost_worker(item):
                     if st.frames and st.frames[-1].fn['name'] == LOGINH: raise PathCut('login: past its only profile write')
                 ex.on_call[f'(*{M}.RuntimeState).userBootstrapOtpHash'] = past
         load, save = store.install(H, initial=lambda ex_, s, user: store.concrete_profile(ex_, s, counts), single=U)
+        # which of the three neighbouring periods a one-time value belongs to is irrelevant for this obligation (what is saved, and when):
+        # the value is taken to belong to the first candidate tried or to none (keeps the unit from forking three ways per device)
+        def hotp_one(ex_, st, a, ins):
+            n_ = len([e for e in st.evs('hotp') if e['who'] == cur_who(st)]); st.ev('hotp')
+            return (z3.Bool(f'hotp.first.{cur_who(st)}') if n_ % 3 == 0 else z3.BoolVal(False), nilerr())
+        H.stub('github.com/pquerna/otp/hotp.ValidateCustom', hotp_one)
         def make_b(ex_, s2):
             s2.aux['reqid'] = 2
             r2 = Ptr(s2.alloc(Lazy(H.REQ, '*r#2'))); w2 = IfaceV(H.LW, Ptr(s2.alloc(Opaque('w2'))))
@@ -320,12 +326,12 @@ def lost_worker(item):
     budget = int(__import__('os').environ.get('C16_BUDGET', rt.get('budget', 300)))
     try:
         if rt.get('unit'):
-            H, st, state, w, r, path = sweep.mkrun(ir, {'path': None}, budget_s=budget, extra=extra, max_paths=40000, loop_bound=3)
+            H, st, state, w, r, path = sweep.mkrun(ir, {'path': None}, budget_s=budget, extra=extra, max_paths=40000, loop_bound=5)
             fn = ir.funcs[rt['handler']]
             args = [state] + [U if p['name'] == 'username' else TimeV(z3.BitVec('unit.t', lib.TW)) if ir.tstr(p['type']) == 'time.Time' else H.ex.fresh(st, p['type'], 'unit.' + p['name']) for p in fn['params'][1:]]
             paths = H.run(rt['handler'], st, args)
         else:
-            H, paths, path = sweep.run_route(ir, rt, budget_s=budget, extra=extra, max_paths=40000, loop_bound=3)
+            H, paths, path = sweep.run_route(ir, rt, budget_s=budget, extra=extra, max_paths=40000, loop_bound=5)
     except Unsupported as e:
         out['inconclusive'] = str(e); return out
     if paths is None: out['inconclusive'] = 'no handler body'; return out
@@ -473,7 +479,7 @@ def ob_double_spend_bootstrap(chk, ir):
         inject_after(H, LOAD, load, point_ok, make_b)
         inject_after(H, SAVE, save, point_ok, make_b)
     try:
-        H, paths, path = sweep.run_route(ir, rt, budget_s=200, extra=extra, max_paths=40000, loop_bound=3)
+        H, paths, path = sweep.run_route(ir, rt, budget_s=200, extra=extra, max_paths=40000, loop_bound=5)
     except Unsupported as e:
         chk.obligation('double-spend-bootstrap-otp', '-', 'inconclusive', str(e)); return
     ex = H.ex; verdict = 'holds'; ninj = 0
